@@ -69,8 +69,9 @@ type GetReq struct {
 
 // Input is one step of a server-level input sequence.
 type Input struct {
-	A         string    `json:"a"` // sreset | open | msg | close | flushrpc | get
+	A         string    `json:"a"` // sreset | open | msg | close | flushrpc | get | addni
 	NIs       []string  `json:"nis,omitempty"`
+	NI        string    `json:"ni,omitempty"`
 	Fwd       bool      `json:"fwd,omitempty"`
 	S         string    `json:"s,omitempty"`
 	M         *Msg      `json:"m,omitempty"`
@@ -680,6 +681,13 @@ func (rn *Runner) Step(in Input) (err error) {
 			rn.Sink.Emit(Event{"ev": "hang", "at": "close", "s": in.S, "blocked": blocked})
 			rn.dead = true
 		}
+	case "addni":
+		// a network instance created while the server runs
+		err := rn.srv.AddNetworkInstance(in.NI)
+		if err == nil {
+			rn.nis = append(rn.nis, in.NI)
+		}
+		rn.Sink.Emit(Event{"ev": "addni", "ni": in.NI, "ok": err == nil, "st": rn.ribState()})
 	case "flushrpc":
 		fr := &spb.FlushRequest{}
 		switch in.R.NI {
